@@ -127,6 +127,13 @@ class SchemaGen:
             s.add(sn, {"kind": "object", "fields": self.rand_fields(r.randint(1, 3), root=True), "implements": []})
             s.roots["subscription"] = sn
         s.d["schema_block"] = custom or r.random() < 0.2
+        # decoy: an ordinary object type that carries a default root name without being that root
+        # (only expressible in SDL with an explicit schema block; JSON names the roots anyway)
+        if r.random() < 0.12:
+            for kind, dn in (("mutation", "Mutation"), ("subscription", "Subscription")):
+                if not s.roots.get(kind) and dn not in s.types and r.random() < 0.7:
+                    s.add(dn, {"kind": "object", "fields": self.rand_fields(r.randint(1, 2), root=False), "implements": []})
+                    self.outs.append(dn)
 
     def rand_fields(self, n, root=False, self_type=None):
         r = self.rng
